@@ -4,5 +4,7 @@ CONSTANTS NK = 2
           BloomSizes = {0, 1}
           D = 2
           E = 2
+          BL = 2
+          PrepOn = FALSE
 INVARIANTS Emit
 CHECK_DEADLOCK FALSE
